@@ -14,6 +14,7 @@ package main
 import (
 	"fmt"
 	"math/rand"
+	"os"
 	"reflect"
 	"strings"
 
@@ -24,6 +25,16 @@ import (
 )
 
 func init() { props["C03"] = runC03 }
+
+// c03Model: the rule flags the real checker is tied to: `asis` = TDefects.asIs (the current /repo);
+// `safefix` / `repaired` for self-tests against a patched copy (VERIF_REPO=… VERIF_C03_MODEL=safefix).
+func c03Model() string {
+	switch m := os.Getenv("VERIF_C03_MODEL"); m {
+	case "safefix", "repaired", "aswas":
+		return m
+	}
+	return "asis"
+}
 
 var (
 	tInt     = reflect.TypeOf(int(0))
@@ -534,7 +545,7 @@ func runC03(c *Ctx) {
 		if _, ok := envSxCache[cs.env.Name]; !ok {
 			envSxCache[cs.env.Name] = envSx(cs.env.Val)
 		}
-		reqs = append(reqs, L(A("c03-check"), A("asis"), envSxCache[cs.env.Name], SBool(true), A(c03Expects[cs.expect].name), nodeSx(tree.Node, false)).String())
+		reqs = append(reqs, L(A("c03-check"), A(c03Model()), envSxCache[cs.env.Name], SBool(true), A(c03Expects[cs.expect].name), nodeSx(tree.Node, false)).String())
 		reals[i] = realRes{true, c03RealCheck(cs)}
 	}
 	resp, err := c.AskAll(reqs)
